@@ -46,7 +46,8 @@ ASSUMPTIONS = [
 ]
 RULE = ("EXHAUSTIVE: every shape n_x, n_y <= 7, n_z <= 4 (quick) / n_x, n_y <= 12, n_z <= 5 (thorough) in both "
         "arrangements, all N^2 matrix entries, the exposure vector and the scaled H_int/H_ext (random k, the "
-        "configured A), and the same object re-declared to the transposed (or next wider) shape with the three "
+        "configured A), and the same object re-declared to the transposed (or next wider) shape and, separately, across the "
+        "shelf <-> pallet boundary (n_z 1 -> 2 or 3, n_z > 1 -> 1) with the three "
         "accessors read in one of the six orders, and re-pointed (same shape) to the other arrangement through "
         "configPath after the pattern was built, each compared with a fresh object and with the model; a case is one "
         "(arrangement, shape, k); non-trivial when the batch has at least one pair of "
@@ -58,18 +59,65 @@ PARALLEL = True
 _HEX_YAML = None
 
 
+class HarnessError(Exception):
+    """the harness itself cannot observe (a private name it reads is gone, a temp file is wrong, ...):
+    propagated as an infrastructure error (exit 2), never mapped to a violation of the code"""
+
+
+def priv(obj, name):
+    """read a private attribute of the implementation; its absence is the harness's problem, not a violation"""
+    try:
+        return getattr(obj, name)
+    except AttributeError as e:
+        raise HarnessError(f"the harness reads the private name {name!r} of {type(obj).__name__}, which no longer "
+                           f"exists: adapt the harness ({e})")
+
+
+def build_pattern(S):
+    """(interaction matrix, VIAL_EXT) as the code builds them now (recomputed on every call in the code as it is)"""
+    return priv(S, "_buildInteractionMatrices")()
+
+
+def stored_mask(S):
+    return np.asarray(priv(S, "_storageMask"))
+
+
+def empty_store(S):
+    return bool(priv(S, "_emptyStore"))
+
+
+def state_matrix(S):
+    """the stored state matrix through the public accessors (temperatures first, ice fractions second)"""
+    return np.concatenate([np.asarray(S.X_T), np.asarray(S.X_sigma)])
+
+
 def hex_yaml():
-    """temp YAML selecting the hexagonal arrangement (one fixed file, written atomically if missing)"""
+    """YAML selecting the hexagonal arrangement: written freshly by every process into a private temp
+    directory that is removed at exit"""
     global _HEX_YAML
     if _HEX_YAML is None or not os.path.exists(_HEX_YAML):
-        path = os.path.join(tempfile.gettempdir(), "snowverif_hexagonal.yaml")
-        if not os.path.exists(path):
-            fd, tmp = tempfile.mkstemp(prefix="snowverif_", suffix=".yaml")
-            with os.fdopen(fd, "w") as f:
-                f.write("snowfall_parameters:\n  vial_arrangement: hexagonal\n")
-            os.replace(tmp, path)
+        import atexit
+        import shutil
+
+        d = tempfile.mkdtemp(prefix="snowverif_")
+        atexit.register(shutil.rmtree, d, True)
+        path = os.path.join(d, "hexagonal.yaml")
+        with open(path, "w") as f:
+            f.write("snowfall_parameters:\n  vial_arrangement: hexagonal\n")
         _HEX_YAML = path
     return _HEX_YAML
+
+
+# created at import time in the process that runs the check, so that forked pool workers inherit the one file
+# (workers leave through os._exit and would never remove a directory of their own)
+hex_yaml()
+
+
+def check_arr(S, arr):
+    """the object must report the arrangement the case asked for (guards the temp YAML)"""
+    seen = str(S.const["vial_arrangement"])
+    if seen != arr:
+        raise HarnessError(f"case asks for the {arr} arrangement but the constructed object reports {seen!r}")
 
 
 def config_for(arr):
@@ -113,12 +161,20 @@ def redeclared(case):
     return new, ORDERS[(nx + 2 * ny + 3 * nz) % 6]
 
 
+def redeclared_layers(case):
+    """a second re-declaration that crosses the shelf <-> pallet boundary (n_z 1 -> 2 or 3, n_z > 1 -> 1),
+    with another accessor order"""
+    nx, ny, nz = case["nx"], case["ny"], case["nz"]
+    new = (nx, ny, 1) if nz > 1 else (nx, ny, 3 if (nx + ny) % 2 else 2)
+    return new, ORDERS[(2 * nx + ny + nz + 1) % 6]
+
+
 def other_arr(arr):
     return "hexagonal" if arr == "square" else "square"
 
 
 def _raw_pattern(S):
-    M, E = S._buildInteractionMatrices()
+    M, E = build_pattern(S)
     M = np.asarray(M.todense())
     ii, jj = np.nonzero(M)
     return ([[int(i), int(j), _num(M[i, j])] for i, j in zip(ii, jj) if i != j],
@@ -139,10 +195,15 @@ def run_impl(case):
     try:
         S = Snowflake(k={"int": case["k_int"], "ext": case["k_ext"], "s0": 20}, N_vials=(nx, ny, nz),
                       configPath=config_for(case["arr"]))
+    except HarnessError:
+        raise
     except Exception as e:
         return {"raise": core.exc_class(e), "stage": "init"}
+    check_arr(S, case["arr"])
     try:
-        M, E = S._buildInteractionMatrices()
+        M, E = build_pattern(S)
+    except HarnessError:
+        raise
     except Exception as e:
         return {"raise": core.exc_class(e), "stage": "_buildInteractionMatrices"}
     M = np.asarray(M.todense())
@@ -155,6 +216,8 @@ def run_impl(case):
     try:
         H = np.asarray(S.H_int.todense())
         Hx = np.asarray(S.H_ext).ravel()
+    except HarnessError:
+        raise
     except Exception as e:
         return {"raise": core.exc_class(e), "stage": "H_int"}
     ii, jj = np.nonzero(H)
@@ -171,20 +234,36 @@ def run_impl(case):
     obs["col_sums"] = float(np.max(np.abs(H.sum(axis=0)))) if N else 0.0
     # the same object re-declared to another shape: the accessors read in a given order must serve the
     # topology of the new shape (compared with a fresh object of that shape, and with the model)
-    new, order = redeclared(case)
+    def _redeclare(obj, new, order):
+        try:
+            obj.N_vials = new
+            for name in order:
+                getattr(obj, name)
+            hi, hx, hs = _pattern(obj)
+            raw = _raw_pattern(obj)
+            F = Snowflake(k={"int": case["k_int"], "ext": case["k_ext"], "s0": 20}, N_vials=new,
+                          configPath=config_for(case["arr"]))
+            fi, fx, fs = _pattern(F)
+            fraw = _raw_pattern(F)
+            return {"shape": list(new), "order": list(order), "H_int": hi, "H_ext": hx, "ext": raw[2],
+                    "same_as_fresh": bool(hi == fi and hx == fx and hs == fs and raw == fraw),
+                    "n_int": [len(hi), len(fi)], "n_ext": [len(hx), len(fx)], "n_shelf": [len(hs), len(fs)],
+                    "ext_head": [raw[2][:4], fraw[2][:4]]}
+        except HarnessError:
+            raise
+        except Exception as e:
+            return {"shape": list(new), "order": list(order), "raise": core.exc_class(e)}
+
+    obs["redecl"] = _redeclare(S, *redeclared(case))
     try:
-        S.N_vials = new
-        for name in order:
-            getattr(S, name)
-        hi, hx, hs = _pattern(S)
-        F = Snowflake(k={"int": case["k_int"], "ext": case["k_ext"], "s0": 20}, N_vials=new,
-                      configPath=config_for(case["arr"]))
-        fi, fx, fs = _pattern(F)
-        obs["redecl"] = {"shape": list(new), "order": list(order), "H_int": hi, "H_ext": hx,
-                         "same_as_fresh": bool(hi == fi and hx == fx and hs == fs),
-                         "n_int": [len(hi), len(fi)], "n_ext": [len(hx), len(fx)], "n_shelf": [len(hs), len(fs)]}
+        S1 = Snowflake(k={"int": case["k_int"], "ext": case["k_ext"], "s0": 20}, N_vials=(nx, ny, nz),
+                       configPath=config_for(case["arr"]))
+        S1.H_int, S1.H_ext, S1.H_shelf
+        obs["redecl_layers"] = _redeclare(S1, *redeclared_layers(case))
+    except HarnessError:
+        raise
     except Exception as e:
-        obs["redecl"] = {"shape": list(new), "order": list(order), "raise": core.exc_class(e)}
+        obs["redecl_layers"] = {"shape": list(redeclared_layers(case)[0]), "order": [], "raise": core.exc_class(e)}
     # the same shape re-pointed to the other arrangement through the public configPath setter after the
     # pattern was built once: _buildInteractionMatrices must serve the pattern of the final arrangement
     # (H_int / H_ext are cached per N_vials only in the code as it is and are not looked at here)
@@ -192,15 +271,18 @@ def run_impl(case):
     try:
         S2 = Snowflake(k={"int": case["k_int"], "ext": case["k_ext"], "s0": 20}, N_vials=(nx, ny, nz),
                        configPath=config_for(case["arr"]))
-        S2._buildInteractionMatrices()
+        build_pattern(S2)
         S2.getVialGroup("corner")
         S2.configPath = config_for(oth)
+        check_arr(S2, oth)
         e, d, x = _raw_pattern(S2)
         F2 = Snowflake(k={"int": case["k_int"], "ext": case["k_ext"], "s0": 20}, N_vials=(nx, ny, nz),
                        configPath=config_for(oth))
         fe, fd, fx = _raw_pattern(F2)
         obs["switched"] = {"arr": oth, "entries": e, "diag": d, "ext": x,
                            "same_as_fresh": bool(e == fe and d == fd and x == fx)}
+    except HarnessError:
+        raise
     except Exception as ex:
         obs["switched"] = {"arr": oth, "raise": core.exc_class(ex)}
     return obs
@@ -216,6 +298,11 @@ def run_model(drv, case):
     if "error" in r2:
         raise RuntimeError(r2["error"])
     r["redecl"] = {"entries": r2["entries"], "deg": r2["deg"], "ext": r2["ext"]}
+    new2, _ = redeclared_layers(case)
+    r4 = drv.call({"op": "topology", "arr": case["arr"], "nx": new2[0], "ny": new2[1], "nz": new2[2]})
+    if "error" in r4:
+        raise RuntimeError(r4["error"])
+    r["redecl_layers"] = {"entries": r4["entries"], "deg": r4["deg"], "ext": r4["ext"]}
     r3 = drv.call({"op": "topology", "arr": other_arr(case["arr"]), "nx": case["nx"], "ny": case["ny"], "nz": case["nz"]})
     if "error" in r3:
         raise RuntimeError(r3["error"])
@@ -269,8 +356,10 @@ def compare(case, impl, model):
         elif ({(i, j): v for i, j, v in sw["entries"]} != {(i, j): v for i, j, v in msw["entries"]}
               or sw["diag"] != [-d for d in msw["deg"]] or sw["ext"] != msw["ext"]):
             dis.append(f"{tag}: _buildInteractionMatrices is not the pattern of the final arrangement")
-    rd, md = impl.get("redecl"), model.get("redecl")
-    if rd is not None and md is not None:
+    for key in ("redecl", "redecl_layers"):
+        rd, md = impl.get(key), model.get(key)
+        if rd is None or md is None:
+            continue
         tag = f"object re-declared to {tuple(rd['shape'])}, accessors read as {'/'.join(rd['order'])}"
         if "raise" in rd:
             dis.append(f"{tag}: raises {rd['raise']}")
@@ -284,6 +373,8 @@ def compare(case, impl, model):
                 dis.append(f"{tag}: H_int is not the pattern of the new shape")
             if len(rd["H_ext"]) != len(md["ext"]) or any(not close(x, e * ke * A) for x, e in zip(rd["H_ext"], md["ext"])):
                 dis.append(f"{tag}: H_ext is not the exposure of the new shape")
+            if rd["ext"] != md["ext"]:
+                dis.append(f"{tag}: VIAL_EXT is not the exposure of the new shape")
     return dis
 
 
@@ -333,15 +424,18 @@ def predicates(case, impl):
             out.append(Failure(clause="ext_eq", key=f"ext_eq|{site}|{ic}",
                                detail=f"{arr} {nx}x{ny}x{nz}: VIAL_EXT[{i}] = {impl['ext'][i]}, max {mx} - neighbours {nb}"))
             break
-    rd = impl.get("redecl")
-    if rd is not None and not rd.get("same_as_fresh", False):
-        first = rd["order"][0]
-        out.append(Failure(clause="redeclared_shape", key=f"redeclared_shape|{first}-first|{ic}",
-                           detail=f"{arr} object built for {nx}x{ny}x{nz}, then N_vials = {tuple(rd['shape'])} and "
-                                  f"{', '.join(rd['order'])} read in this order: "
-                                  + (f"raises {rd['raise']}" if "raise" in rd else
-                                     f"H_int/H_ext/H_shelf differ from a fresh object of that shape (sizes served/fresh: "
-                                     f"{rd['n_int']}, {rd['n_ext']}, {rd['n_shelf']})")))
+    for key in ("redecl", "redecl_layers"):
+        rd = impl.get(key)
+        if rd is not None and not rd.get("same_as_fresh", False):
+            first = rd["order"][0] if rd["order"] else "-"
+            kind = "shelf<->pallet" if key == "redecl_layers" else "same-layers"
+            out.append(Failure(clause="redeclared_shape", key=f"redeclared_shape|{kind},{first}-first|{ic}",
+                               detail=f"{arr} object built for {nx}x{ny}x{nz}, then N_vials = {tuple(rd['shape'])} and "
+                                      f"{', '.join(rd['order'])} read in this order: "
+                                      + (f"raises {rd['raise']}" if "raise" in rd else
+                                         f"H_int/H_ext/H_shelf/VIAL_EXT differ from a fresh object of that shape (sizes "
+                                         f"served/fresh: {rd['n_int']}, {rd['n_ext']}, {rd['n_shelf']}; first exposures "
+                                         f"served/fresh: {rd['ext_head']})")))
     sw = impl.get("switched")
     if sw is not None and not sw.get("same_as_fresh", False):
         out.append(Failure(clause="switched_arrangement", key=f"switched_arrangement|configPath|{ic}",
